@@ -63,6 +63,8 @@ func directedE() []ecase {
 		{Spec: eq1(atom{Kind: "fa", A: 0, B: 0.25}), X: &testproto.TestAllTypes{RepeatedFloat: []float32{1, 2}}, Y: &testproto.TestAllTypes{RepeatedFloat: []float32{1.25, 2}}, Label: "repeated float at tolerance"},
 		{Spec: eq1(atom{Kind: "fa", A: 0, B: 0.25}), X: &testproto.TestAllTypes{RepeatedFloat: []float32{1, 2}}, Y: &testproto.TestAllTypes{RepeatedFloat: []float32{1.375, 2}}, Label: "repeated float above tolerance"},
 		{Spec: eq1(atom{Kind: "fa", A: 0, B: 1}), X: &testproto.TestAllTypes{DefaultInt32: 1}, Y: &testproto.TestAllTypes{DefaultInt32: 2}, Label: "int under FloatValueApprox"},
+		{Spec: eq1(atom{Kind: "fa", A: 0, B: 1}, atom{Kind: "fa", A: 0, B: 0.25}), X: &testproto.TestAllTypes{DefaultDouble: 1}, Y: &testproto.TestAllTypes{DefaultDouble: 1.5}, Label: "two FloatValueApprox, inside the first only"},
+		{Spec: eq1(atom{Kind: "fa", A: 0, B: 0.25}, atom{Kind: "fa", A: 0, B: 1}), X: &testproto.TestAllTypes{DefaultDouble: 1}, Y: &testproto.TestAllTypes{DefaultDouble: 1.5}, Label: "two FloatValueApprox, inside the second only"},
 		{Spec: eq1(atom{Kind: "dp", A: 0.125}), X: &testproto.WellKnown{DefaultDuration: &durationpb.Duration{Nanos: 4}}, Y: &testproto.WellKnown{DefaultDuration: &durationpb.Duration{Nanos: 4}}, Label: "DurationValueWithinP same"},
 		{Spec: eq1(atom{Kind: "dp", A: 25}), X: &testproto.WellKnown{DefaultDuration: &durationpb.Duration{Nanos: 4}}, Y: &testproto.WellKnown{DefaultDuration: &durationpb.Duration{Nanos: 5}}, Label: "DurationValueWithinP at the tolerance"},
 		{Spec: eq1(atom{Kind: "dp", A: 12.5}), X: &testproto.WellKnown{DefaultDuration: &durationpb.Duration{Nanos: 5}}, Y: &testproto.WellKnown{DefaultDuration: &durationpb.Duration{Nanos: 4}}, Label: "DurationValueWithinP beyond the tolerance"},
@@ -124,6 +126,13 @@ func directedV() []vcase {
 		{Spec: one(atom{Kind: "dp", A: 0.125}), Pos: dur, X: d(0, 4), Y: d(0, 4)},
 		{Spec: one(atom{Kind: "dp", A: 0.5}), Pos: dur, X: d(0, 1), Y: d(0, 4)},
 		{Spec: one(atom{Kind: "dp", A: 0.5}), Pos: dur, X: d(0, 0), Y: d(0, 0)},
+		// several comparers claiming one position: every one of them counts, in either order
+		{Spec: vspec{Comb: "VA", Atoms: []atom{{Kind: "fa", A: 0, B: 1}, {Kind: "fa", A: 0, B: 0.25}}}, Pos: dbl, X: f(1), Y: f(1.5)},
+		{Spec: vspec{Comb: "VA", Atoms: []atom{{Kind: "fa", A: 0, B: 0.25}, {Kind: "fa", A: 0, B: 1}}}, Pos: dbl, X: f(1), Y: f(1.5)},
+		{Spec: vspec{Comb: "VO", Atoms: []atom{{Kind: "fa", A: 0, B: 0.25}, {Kind: "fa", A: 0, B: 1}}}, Pos: dbl, X: f(1), Y: f(1.5)},
+		{Spec: vspec{Comb: "VO", Atoms: []atom{{Kind: "fa", A: 0, B: 1}, {Kind: "fa", A: 0, B: 0.25}}}, Pos: dbl, X: f(1), Y: f(1.5)},
+		{Spec: vspec{Comb: "VA", Atoms: []atom{{Kind: "dw", D: 2000000000}, {Kind: "dp", A: 25}}}, Pos: dur, X: d(1, 0), Y: d(2, 0)},
+		{Spec: vspec{Comb: "VA", Atoms: []atom{{Kind: "tw", D: 2000000000}, {Kind: "tw", D: 1}}}, Pos: tim, X: t(1, 0), Y: t(2, 0)},
 		{Spec: one(atom{Kind: "dp", A: 25}), Pos: dur, X: d(0, 4), Y: d(0, 5)},
 		{Spec: one(atom{Kind: "dp", A: 25}), Pos: dur, X: d(0, 5), Y: d(0, 4)},
 		{Spec: one(atom{Kind: "dp", A: 12.5}), Pos: dur, X: d(0, 4), Y: d(0, 5)},
